@@ -1199,6 +1199,15 @@ func (w *DijkstraTransactionWitnessSet) UnmarshalCBOR(cborData []byte) error {
 	return nil
 }
 
+func (w *DijkstraTransactionWitnessSet) MarshalCBOR() ([]byte, error) {
+	// Return the original CBOR if available so that re-encoding a decoded
+	// object reproduces the exact bytes it was decoded from
+	if w.Cbor() != nil {
+		return w.Cbor(), nil
+	}
+	return cbor.EncodeGeneric(w)
+}
+
 func (w DijkstraTransactionWitnessSet) Vkey() []common.VkeyWitness {
 	return w.VkeyWitnesses.Items()
 }
